@@ -196,3 +196,40 @@ def enclosing_conditions(root):
             visit(c, conds)
     visit(root, ())
     return res
+
+
+def path_returns(fn, unroll=1):
+    '''[(facts, returned expression)] for every path of fn that returns a value: facts maps the text of each decided atom to its truth value,
+    and in the returned expression every local that was bound by a plain `name = value` on that path is replaced by the value it was last bound to
+    (so `if c: return a, b` and `if c: lo = a; hi = b ... return lo, hi` give the same answer).'''
+    import copy
+
+    def on_stmt(s, st):
+        if isinstance(s, ast.Assign) and len(s.targets) == 1 and isinstance(s.targets[0], ast.Name):
+            return (Event('BIND', s, (s.targets[0].id, s.value)),)
+        if isinstance(s, ast.Return) and s.value is not None:
+            return (Event('RET', s, s.value),)
+        return ()
+
+    class Sub(ast.NodeTransformer):
+        def __init__(self, env):
+            self.env = env
+
+        def visit_Name(self, n):
+            if isinstance(n.ctx, ast.Load) and n.id in self.env:
+                return copy.deepcopy(self.env[n.id])
+            return n
+    out = []
+    for p in PathEnumerator(fn, on_stmt=on_stmt, unroll=unroll).paths():
+        env, facts = {}, {}
+        for e in p.events:
+            if e.kind == 'cond':
+                for node, val in decompose(e.node, e.data[0]):
+                    facts[src(node)] = val
+            elif e.kind == 'BIND':
+                name, value = e.data
+                env[name] = Sub(env).visit(copy.deepcopy(value))
+            elif e.kind == 'RET':
+                out.append((dict(facts), Sub(env).visit(copy.deepcopy(e.data))))
+                break
+    return out
